@@ -50,6 +50,7 @@ type Frame struct {
 	inlineResults []Val
 	nonNil   map[ssa.Value]*ssa.BasicBlock
 	frame    *frameSpec
+	callCount map[string]int
 }
 
 type deferred struct {
@@ -522,6 +523,11 @@ func (f *Frame) instr(in ssa.Instruction, st *state) {
 		f.allocRefs[x] = r
 		if !f.escaped[x] {
 			f.localRefs = append(f.localRefs, r)
+		}
+		// ghost value of a fresh big.Int is 0
+		if nt, ok := el.(*types.Named); ok && nt.Obj().Pkg() != nil && nt.Obj().Pkg().Path() == "math/big" && nt.Obj().Name() == "Int" {
+			u.declArr("GF:val", "(Array Int Int)")
+			u.hset(st.heap, "GF:val", sto(u.hget(st.heap, "GF:val"), r, "0"))
 		}
 		// zero-initialise
 		if s, ok := el.Underlying().(*types.Struct); ok {
